@@ -620,10 +620,137 @@ func c14CancelNet(roles []string) *c14Net {
 }
 
 
+// ---- commitment (nonce) binding ------------------------------------------------
+// Every signature of one family of private keys must carry its own commitment
+// R: the same signers, seed and vector with two different messages, or the same
+// private keys under another seed / signer set / index layout, must never share
+// R. When two messages share R the weighted aggregate private key
+// w = (S1-S2)/(x1-x2) follows from public data; the harness then forges a
+// signature on a third message with it (end-to-end oracle).
+type c14NonceRec struct {
+	vec  *c14Vec
+	set  []int
+	seed int
+	mi   int
+	sig  *Signature
+}
+
+func (r *c14Run) nonceMessages() []Hash {
+	m0 := Blake3Hash([]byte("c14/nonce-message"))
+	m1, m2 := m0, m0
+	m1[0] ^= 0x01
+	m2[31] ^= 0x80
+	return []Hash{m0, m1, m2, {}, Blake3Hash([]byte("c14/nonce-message0"))}
+}
+
+func (r *c14Run) nonces(net *c14Net, sorted []c14List, nRecs *atomic.Int64) {
+	c := r.c
+	msgs := r.nonceMessages()
+	third := Blake3Hash([]byte("c14/forged-message"))
+	seen := map[[32]byte]c14NonceRec{}
+	privFor := func(v *c14Vec, i int) *Key {
+		for j, p := range net.base.pub {
+			if *p == *v.pub[i] {
+				return net.priv[j]
+			}
+		}
+		return nil
+	}
+	record := func(v *c14Vec, set []int, seed, mi int) {
+		privs := make([]*Key, len(set))
+		for k, i := range set {
+			if privs[k] = privFor(v, i); privs[k] == nil {
+				return // a replaced key: nobody of this family can sign
+			}
+		}
+		c.Eval(1)
+		c.Distinct(fmt.Sprintf("%s|nonce|%s|%v|%d|%d", net.name, v.name, set, seed, mi))
+		var sig *Signature
+		var err error
+		if p := verifmc.Catch(func() {
+			sig, err = AggregateSign(privs, v.pub, set, c14Seed(fmt.Sprintf("c14/nonce-seed/%d", seed)), msgs[mi])
+		}); p != nil || err != nil || sig == nil {
+			c.Outcome("honest:sign-failed")
+			c.Violation("honest:sign-failed", fmt.Sprintf("%s: AggregateSign refuses sorted signers %v on %s: %v %v", net.name, set, v.name, err, p), map[string]any{"vector": net.name, "variant": v.name, "signers": set})
+			return
+		}
+		nRecs.Add(1)
+		if e := AggregateVerify(sig, v.pub, set, msgs[mi]); e != nil {
+			c.Violation("honest:verify-rejected", fmt.Sprintf("%s: signature by %v on %s does not verify: %v", net.name, set, v.name, e), map[string]any{"vector": net.name, "variant": v.name, "signers": set, "message": mi})
+			return
+		}
+		var R [32]byte
+		copy(R[:], sig[:32])
+		cur := c14NonceRec{vec: v, set: set, seed: seed, mi: mi, sig: sig}
+		old, dup := seen[R]
+		if !dup {
+			seen[R] = cur
+			c.Outcome("nonce:distinct")
+			return
+		}
+		rep := map[string]any{"family": net.name, "first": map[string]any{"vector": old.vec.name, "signers": old.set, "seed": old.seed, "message": old.mi},
+			"second": map[string]any{"vector": v.name, "signers": set, "seed": seed, "message": mi}, "commitment": fmt.Sprintf("%x", R[:])}
+		if old.vec != v || !c14Equal(old.set, set) || old.seed != seed {
+			c.Outcome("nonce:reused-across-contexts")
+			c.Violation("nonce:reused-across-contexts", fmt.Sprintf("%s: the same commitment R is used for (%s, %v, seed %d, msg %d) and (%s, %v, seed %d, msg %d)", net.name, old.vec.name, old.set, old.seed, old.mi, v.name, set, seed, mi), rep)
+			return
+		}
+		// same signers, seed and vector, two messages, one commitment: extract the weighted key and forge
+		A, _, _, err := aggregateWeightedPublicKey(v.pub, set)
+		if err != nil {
+			c.Require(false, "aggregateWeightedPublicKey failed: %v", err)
+			return
+		}
+		x1 := c14RefChallenge(R[:], A[:], msgs[old.mi][:])
+		x2 := c14RefChallenge(R[:], A[:], msgs[mi][:])
+		s1, e1 := edwards25519.NewScalar().SetCanonicalBytes(old.sig[32:])
+		s2, e2 := edwards25519.NewScalar().SetCanonicalBytes(sig[32:])
+		dx := edwards25519.NewScalar().Subtract(x1, x2)
+		forged := false
+		if e1 == nil && e2 == nil && dx.Equal(edwards25519.NewScalar()) != 1 {
+			w := edwards25519.NewScalar().Multiply(edwards25519.NewScalar().Subtract(s1, s2), edwards25519.NewScalar().Invert(dx))
+			z, _ := edwards25519.NewScalar().SetUniformBytes(c14Seed("c14/forger-nonce"))
+			Rf := edwards25519.NewIdentityPoint().ScalarBaseMult(z).Bytes()
+			x3 := c14RefChallenge(Rf, A[:], third[:])
+			var fs Signature
+			copy(fs[:32], Rf)
+			copy(fs[32:], edwards25519.NewScalar().MultiplyAdd(x3, w, z).Bytes())
+			forged = verifmc.Catch(func() { forged = AggregateVerify(&fs, v.pub, set, third) == nil }) == nil && forged
+			rep["forged_signature_on_third_message"] = fs.String()
+		}
+		if forged {
+			c.Outcome("nonce:reuse-forgery")
+			c.Violation("soundness:nonce-reuse-forgery", fmt.Sprintf("%s: signers %v with seed %d produce the same commitment for messages %d and %d; the weighted private key computed from the two public signatures forges a verifying signature on a third message", net.name, set, seed, old.mi, mi), rep)
+		} else {
+			c.Outcome("nonce:not-bound-to-message")
+			c.Violation("nonce:not-bound-to-message", fmt.Sprintf("%s: signers %v with seed %d produce the same commitment for messages %d and %d", net.name, set, seed, old.mi, mi), rep)
+		}
+	}
+	for _, sl := range sorted {
+		for seed := 0; seed < 2; seed++ {
+			for mi := range msgs {
+				record(net.base, sl.l, seed, mi)
+			}
+		}
+	}
+	// the same private keys at other indexes / in other company
+	for _, v := range net.vecs[1:] {
+		for _, sl := range sorted {
+			touches := false
+			for _, i := range sl.l {
+				touches = touches || *v.pub[i] != *net.base.pub[i]
+			}
+			if touches {
+				record(v, sl.l, 0, 0)
+			}
+		}
+	}
+}
+
 func TestMC_C14(t *testing.T) {
 	c := verifmc.Start(t, "C14", "exploration")
 	defer c.Finish()
-	c.SetRule("key vectors n in {1,2,3,4,6,300}. n<=6: one signature per (non-empty sorted subset S, message of 2); each verified against every (vector variant in {base, every swap of two keys, every single key replaced} x every sorted subset x 2 messages) and every malformed list (all unsorted permutations of subsets of size 2..3, every single duplicate, index n / n+7 / -1 added) x 2 messages [quick tier, n=6 only: the non-base vector variants are restricted to swaps and replacements that touch S, combined with the sorted subsets of the same size as S; the base vector still meets every list]; every malformed list is also signed with; every S proper subset of T forged with partial keys (signing equation with the code's and with the reference coefficients) and, for n<=4, with the single scalar w*sum(y_S) for every weight w in {1, every reference coefficient of T, every coefficient the code yields}; rogue key (with and without small-order component) at first and last position of every S with |S|>=2, attacker scalar w*x for every such w. 13 key vectors with cancelling members (X,-X / Y,-Y in every arrangement of 2..4 keys): every subset signed honestly and verified against every subset, every S subset of T forged both ways, rogue key at every position. Every acceptance anywhere is re-verified under the reference weighted key. n=300: signatures for {0},{299},{0,299},{127,128},{255,256}, each verified against 15 sorted and 12 malformed lists x 9 swapped / 5 replaced vectors (including index pairs that differ by 256) x 2 messages. A case is distinct by (n, signed set, signed message, target vector, target list, target message) or by the forgery parameters")
+	c.SetRule("key vectors n in {1,2,3,4,6,300}. n<=6: one signature per (non-empty sorted subset S, message of 2); each verified against every (vector variant in {base, every swap of two keys, every single key replaced} x every sorted subset x 2 messages) and every malformed list (all unsorted permutations of subsets of size 2..3, every single duplicate, index n / n+7 / -1 added) x 2 messages [quick tier, n=6 only: the non-base vector variants are restricted to swaps and replacements that touch S, combined with the sorted subsets of the same size as S; the base vector still meets every list]; every malformed list is also signed with; every S proper subset of T forged with partial keys (signing equation with the code's and with the reference coefficients) and, for n<=4, with the single scalar w*sum(y_S) for every weight w in {1, every reference coefficient of T, every coefficient the code yields}; rogue key (with and without small-order component) at first and last position of every S with |S|>=2, attacker scalar w*x for every such w. 13 key vectors with cancelling members (X,-X / Y,-Y in every arrangement of 2..4 keys): every subset signed honestly and verified against every subset, every S subset of T forged both ways, rogue key at every position. Every acceptance anywhere is re-verified under the reference weighted key. Commitment binding (n<=4 and n=300; n=6 thorough): every sorted subset x 2 seeds x 5 messages (one-bit neighbours, zero hash, longer preimage) on the base vector plus every swapped vector touching the subset; all commitments R of one key family must be pairwise distinct; on a collision between two messages the weighted private key is extracted from the two signatures and a forgery on a third message attempted. n=300: signatures for {0},{299},{0,299},{127,128},{255,256}, each verified against 15 sorted and 12 malformed lists x 9 swapped / 5 replaced vectors (including index pairs that differ by 256) x 2 messages. A case is distinct by (n, signed set, signed message, target vector, target list, target message) or by the forgery parameters")
 	c.Assume("reference verifier: plain Schnorr on filippo.io/edwards25519 with challenge SHA-512(R||A||m) (crypto/signature.go); used to validate the attacker's own signature in the rogue-key scenario and the accepted honest signatures against the weighted key computed by the repository",
 		"equality of triples is taken on the selected keys (DESIGN.md): a target that differs only in an unselected key is expected to verify; a refusal there is recorded as stricter-than-statement, not as a violation",
 		"reference weighted key: a_i = SHA-512('mixin-aggregate-coefficient-v1' || transcript || u32be(i) || X_i) mod l with transcript = u32be(|S|) || (u32be(i) || X_i)*, A = sum a_i*X_i, recomputed in the harness from the definition in crypto/aggregation.go of the unchanged tree; used in the direction accepted => reference-valid, and as a source of forger weights. A deliberate change of the transcript format requires updating this reference",
@@ -634,7 +761,7 @@ func TestMC_C14(t *testing.T) {
 
 	type job func()
 	var jobs []job
-	var nSigs, nForge, nRogue, nSelf, nScalar, nCancel atomic.Int64
+	var nSigs, nForge, nRogue, nSelf, nScalar, nCancel, nNonce atomic.Int64
 
 	for _, n := range []int{1, 2, 3, 4, 6} {
 		var swaps [][2]int
@@ -650,6 +777,9 @@ func TestMC_C14(t *testing.T) {
 		c.Add(fmt.Sprintf("lists_n%d_sorted", n), int64(len(sorted)))
 		c.Add(fmt.Sprintf("lists_n%d_malformed", n), int64(len(malformed)))
 		allPairs := n <= 4 || c.Thorough()
+		if allPairs {
+			jobs = append(jobs, func() { r.nonces(net, sorted, &nNonce) })
+		}
 		for _, sl := range sorted {
 			for mi := range r.msgs {
 				S, mi := sl.l, mi
@@ -809,6 +939,7 @@ func TestMC_C14(t *testing.T) {
 		for _, s := range [][]int{{300}, {0, 300}, {299, 300}, {255, 256, 65536}, {-1, 0}} {
 			malformed = append(malformed, c14List{s, "out-of-range"})
 		}
+		jobs = append(jobs, func() { r.nonces(net, sorted[:5], &nNonce) })
 		for _, sl := range sorted[:5] {
 			for mi := range r.msgs {
 				S, mi := sl.l, mi
@@ -847,6 +978,7 @@ func TestMC_C14(t *testing.T) {
 	c.Set("partial_key_forgeries", nForge.Load())
 	c.Set("single_scalar_forgery_groups", nScalar.Load())
 	c.Set("cancelling_key_vectors", nCancel.Load())
+	c.Set("commitment_binding_signatures", nNonce.Load())
 	c.Set("rogue_key_attempts", nRogue.Load())
 	c.Set("malformed_lists_signed_with", nSelf.Load())
 	c.Set("reference_accepts", r.refOK.Load())
@@ -861,7 +993,7 @@ func TestMC_C14(t *testing.T) {
 	if c.Violations() == 0 && !c.Expired("final guards") {
 		c.Require(c.OutcomeCount("accept:own-triple") == nSigs.Load() && nSigs.Load() > 0, "own triple accepted %d times for %d signatures", c.OutcomeCount("accept:own-triple"), nSigs.Load())
 		for _, o := range []string{"accept:unselected-key-changed", "reject:same-keys-at-other-indexes", "reject:superset-of-signers", "reject:fewer-signers", "reject:other-signer-set", "reject:other-message", "reject:selected-key-changed",
-			"reject:unsorted", "reject:duplicate", "reject:out-of-range", "forge:reject", "forge:complete-keys-verify", "scalar-forge:reject", "rogue:valid-point:reject", "rogue:small-order-component:reject",
+			"reject:unsorted", "reject:duplicate", "reject:out-of-range", "forge:reject", "forge:complete-keys-verify", "scalar-forge:reject", "nonce:distinct", "rogue:valid-point:reject", "rogue:small-order-component:reject",
 			"sign-malformed:unsorted:refused", "sign-malformed:duplicate:refused", "sign-malformed:out-of-range:refused"} {
 			c.Require(c.OutcomeCount(o) > 0, "outcome %q never reached", o)
 		}
